@@ -72,6 +72,7 @@ fn render(doc: &Value, dir: &str, fmt: usize) -> Value {
     // one kibibyte, spelled differently in each rendering: the built trigger is the same
     let spelled = ["1 kb", "1kb", "1 KiB", "1024"][fmt % 4];
     let size = json!({"kind": "size", "limit": spelled});
+    let zero_limit: Value = [json!(0), json!(0), json!(0), json!("0 kb")][fmt % 4].clone();
     let spelled_w: Value = [json!(1024), json!("1024 b"), json!("1Kb"), json!("1   kib")][fmt % 4].clone();
     let del = json!({"kind": "delete"});
     let win = |extra: Value| {
@@ -93,6 +94,8 @@ fn render(doc: &Value, dir: &str, fmt: usize) -> Value {
         "file_pat" => Some(json!({"kind": "file", "path": path, "encoder": {"pattern": "{l}|{m}{n}"}})),
         "roll_delete" => Some(roll(json!({"trigger": size, "roller": del}))),
         "roll_window" => Some(roll(json!({"kind": "compound", "trigger": {"kind": "size", "limit": spelled_w}, "roller": win(json!({}))}))),
+        // a limit of zero, as a bare integer (the formats hand integers to the reader differently: unsigned, signed)
+        "roll_zero_limit" => Some(roll(json!({"trigger": {"kind": "size", "limit": zero_limit}, "roller": del}))),
         "console" => Some(json!({"kind": "console", "target": "stderr", "tty_only": true})),
         "file_unknown_key" => Some(json!({"kind": "file", "path": path, "colour": true})),
         "file_path_wrong_type" => Some(json!({"kind": "file", "path": 5})),
@@ -310,6 +313,8 @@ fn check_format(case: &Value, fmt: usize) -> Option<Value> {
             "file_pat" => Some(Box::new(log4rs::append::file::FileAppender::builder().encoder(Box::new(log4rs::encode::pattern::PatternEncoder::new("{l}|{m}{n}"))).build(&xp).unwrap())),
             "roll_delete" => Some(Box::new(log4rs::append::rolling_file::RollingFileAppender::builder()
                 .build(&xp, Box::new(CompoundPolicy::new(Box::new(SizeTrigger::new(1024)), Box::new(DeleteRoller::new())))).unwrap())),
+            "roll_zero_limit" => Some(Box::new(log4rs::append::rolling_file::RollingFileAppender::builder()
+                .build(&xp, Box::new(CompoundPolicy::new(Box::new(SizeTrigger::new(0)), Box::new(DeleteRoller::new())))).unwrap())),
             "roll_window" => Some(Box::new(log4rs::append::rolling_file::RollingFileAppender::builder()
                 .build(&xp, Box::new(CompoundPolicy::new(Box::new(SizeTrigger::new(1024)),
                     Box::new(FixedWindowRoller::builder().build(&format!("{}/x.{{}}.log", dir), 2).unwrap())))).unwrap())),
